@@ -41,7 +41,7 @@ def one(sid, all_props):
             if p not in all_props:
                 res[p] = None
                 continue
-            code, out = sh('%s -m sa check %s --root %s --no-write' % (PY, p, wt), cwd=VERIF)
+            code, out = sh('timeout 180 %s -m sa check %s --root %s --no-write' % (PY, p, wt), cwd=VERIF)
             first = [l for l in out.splitlines() if l.startswith('  rule ')][:1] or \
                     [l for l in out.splitlines() if l.startswith('ANALYSIS-ERROR')][:1]
             res[p] = {'exit': code, 'first': first[0].strip()[:260] if first else ''}
